@@ -48,6 +48,7 @@ extern "C" void vp_td_prestate(thread_data* td, arena* home, task_dispatcher* di
   td->my_task_dispatcher = disp; disp->m_thread_data = td; disp->m_execute_data_ext.task_disp = disp;
 }
 extern "C" void vp_ta_set(d1::task_arena_base* ta, arena* a) { ta->my_arena.store(a, std::memory_order_relaxed); }
+extern "C" arena* vp_ta_get(d1::task_arena_base* ta) { return ta->my_arena.load(std::memory_order_relaxed); }
 extern "C" int vp_slot_occupy(arena* a, unsigned i) { return a->my_slots[i].try_occupy(); }
 extern "C" int vp_slot_occupied(arena* a, unsigned i) { return a->my_slots[i].is_occupied(); }
 // the leaver entered earlier through the real path: occupy_free_slot + nested_arena_context constructor
@@ -66,9 +67,3 @@ extern "C" unsigned long vp_exit_waitset_size(arena* a) { return a->my_exit_moni
 extern "C" int vp_exit_mutex_flag(arena* a) { return a->my_exit_monitors.my_mutex.my_flag.load(std::memory_order_relaxed); }
 extern "C" arena* vp_td_arena(thread_data* td) { return td->my_arena; }
 extern "C" int vp_cmm_is_free(concurrent_monitor_mutex* mx) { return mx->my_flag.load(std::memory_order_relaxed) == 0; }
-#if VP_PROBE
-extern "C" void vp_thr_p1(d1::task_arena_base* ta, int tid) { arena* a = ta->my_arena.load(std::memory_order_relaxed); thread_data* td = governor::get_thread_data(); std::size_t i = a->occupy_free_slot<false>(*td); vp_functor((int)i); }
-extern "C" void vp_thr_p2(d1::task_arena_base* ta, int tid) { arena* a = ta->my_arena.load(std::memory_order_relaxed); thread_data* td = governor::get_thread_data(); { nested_arena_context scope(*td, *a, tid); vp_functor(1); } vp_done(tid); }
-extern "C" void vp_thr_p3(d1::task_arena_base* ta, int tid) { arena* a = ta->my_arena.load(std::memory_order_relaxed); concurrent_monitor::thread_context waiter((std::uintptr_t)ta);
-  a->my_exit_monitors.prepare_wait(waiter); if (tid) a->my_exit_monitors.cancel_wait(waiter); else a->my_exit_monitors.commit_wait(waiter); a->my_exit_monitors.notify_one(); vp_done(tid); }
-#endif
